@@ -38,6 +38,7 @@ def parseResp (t : String) : Option Resp :=
 
 def parseSdp : String → Option Sdp
   | "va" => some (.tracks true true false)
+  | "av" => some (.tracks true true false)
   | "v" => some (.tracks true false false)
   | "a" => some (.tracks false true false)
   | "none" => some (.tracks false false false)
@@ -66,29 +67,38 @@ def allSome {α : Type} : List (Option α) → Option (List α)
   | some a :: r => (allSome r).map (a :: ·)
 
 def showMethod : Method → String
-  | .options => "OPTIONS" | .describe => "DESCRIBE" | .setup => "SETUP" | .play => "PLAY"
+  | .options => "OPTIONS" | .describe => "DESCRIBE" | .setup _ => "SETUP" | .play => "PLAY"
+
+/-- what the request is addressed to: b = the route URL, v / a = the video / audio track's control URL
+    with that track's interleaved channel pair -/
+def showTarget : Method → String
+  | .setup false => "v" | .setup true => "a" | _ => "b"
 
 def showReq (r : Req) : String :=
   let a := match r.auth with | .none => "none" | .basic => "basic" | .digest => "digest"
   let c := match r.auth with | .none => "-" | _ => if r.md5 then "md5" else "plain"
   let s := match r.session with | none => "-" | some false => "s" | some true => "st"
-  s!"{showMethod r.method}:{a}:{c}:{s}"
+  s!"{showMethod r.method}:{a}:{c}:{s}:{showTarget r.method}"
 
 def showOutcome : Outcome → String
   | .stream => "stream" | .notFound => "nil" | .hang => "hang" | .panic => "panic"
 
-def parseMethod : String → Option Method
-  | "OPTIONS" => some .options | "DESCRIBE" => some .describe | "SETUP" => some .setup | "PLAY" => some .play
-  | _ => none
+/-- method and target token → the method (with its track) and whether the request is misaddressed -/
+def parseMethod : String → String → Option (Method × Bool)
+  | "OPTIONS", t => some (.options, t != "b") | "DESCRIBE", t => some (.describe, t != "b")
+  | "PLAY", t => some (.play, t != "b")
+  | "SETUP", "v" => some (.setup false, false) | "SETUP", "a" => some (.setup true, false)
+  | "SETUP", _ => some (.setup false, true)
+  | _, _ => none
 
 def parseSeen (t : String) : Option SeenReq :=
   match t.splitOn ":" with
-  | [m, a, c, _] =>
-    match parseMethod m with
-    | some m =>
+  | [m, a, c, _, t] =>
+    match parseMethod m t with
+    | some (m, mis) =>
       let a := match a with | "none" => some Auth.none | "basic" => some Auth.basic | "digest" => some Auth.digest | _ => none
       let c := match c with | "-" => Cred.none | "plain" => Cred.plain | "md5" => Cred.md5 | _ => Cred.wrong
-      a.map (fun a => { method := m, auth := a, cred := c })
+      a.map (fun a => { method := m, auth := a, cred := c, misaddressed := mis })
     | none => none
   | _ => none
 
@@ -105,13 +115,16 @@ def predict (cfg : Cfg) (script : List Resp) (play : List PlayEv) : String :=
     match playStream play with
     | some eff =>
       let delivered := (eff.filter (· = .deliver)).length
-      let cleaned := eff.contains .connRelease && eff.contains .unregist && eff.contains .closeConn
-      s!"out=stream;reqs={reqs};closed={boolStr (eff.contains .closeConn)};reg={boolStr (eff.contains .regist)};delivered={delivered};clean={boolStr cleaned}"
-    | none => s!"out=stream;reqs={reqs};closed=0;reg=1;delivered=0;clean=0"
+      let ka := (eff.filter (· = .keepAlive)).length
+      let w := eff.foldl applyPlay (r.effects.foldl applyOpen World.init)
+      let cleaned := !w.registered && w.conns == 0 && w.counter == 0
+      s!"out=stream;reqs={reqs};closed={boolStr (eff.contains .closeConn)};reg={boolStr (eff.contains .regist)};delivered={delivered};clean={boolStr cleaned};ka={ka}"
+    | none => s!"out=stream;reqs={reqs};closed=0;reg=1;delivered=0;clean=0;ka=0"
   | o =>
     let closed := r.effects.contains .closeConn
-    let clean := closed || !r.effects.contains .dial
-    s!"out={showOutcome o};reqs={reqs};closed={boolStr closed};reg=0;delivered=0;clean={boolStr clean}"
+    let w := r.effects.foldl applyOpen World.init
+    let clean := !w.registered && w.conns == 0
+    s!"out={showOutcome o};reqs={reqs};closed={boolStr closed};reg=0;delivered=0;clean={boolStr clean};ka=0"
 
 /-- `pull <scenario k=v …> | <observation k=v …>` → `model=<prediction> verdict=<ok|class>` -/
 def handle : List String → String
@@ -126,7 +139,7 @@ def handle : List String → String
         let o : Obs := { out := out, dialled := kv ob "dialled" = "1", reqs := reqs, closed := kv ob "closed" = "1",
                          reg := kv ob "reg" = "1", sent := (kv ob "sent").toNat?.getD 0, delivered := (kv ob "delivered").toNat?.getD 0,
                          clean := kv ob "clean" = "1", cclosed := kv ob "cclosed" = "1", regAfter := kv ob "regafter" = "1",
-                         cseqOk := kv ob "cseq" = "1", leak := kv ob "leak" = "1" }
+                         cseqOk := kv ob "cseq" = "1", leak := kv ob "leak" = "1", afresh := kv ob "afresh" = "1" }
         s!"model={model} verdict={verdict cfg script o}"
       | _, _ => s!"model={model} verdict=bad-observation"
     | _, _, _ => "bad-op"
